@@ -191,12 +191,31 @@ source has nothing; a folder; the source's bytes with the source's time (or the 
 file when it already carried that time: deemed up to date); a link whose text reads back as the
 source's target. -/
 theorem C01_mirror_fs {fs0 : FS} {r : FPath} {ld : List (FPath × Node)} {src : FPath → Option SEntry}
-    {ls : List (FPath × SEntry)} (hw : DestWF fs0 r ld) (hs : SrcWF src ls) :
+    {ls : List (FPath × SEntry)} (hw : DestWF (fun _ => true) fs0 r ld) (hs : SrcWF (fun _ => true) src ls) :
     ∃ fs', syncDest fs0 r src ls ld = .ok fs' ∧
       (∀ q, ¬ r <+: q → fs'.get q = fs0.get q) ∧
       fs'.get r = some .folder ∧
-      ∀ p, p ≠ [] → MirrorAt fs0 fs' r p (src p) :=
-  sync_mirror hw hs
+      ∀ p, p ≠ [] → MirrorAt fs0 fs' r p (src p) := by
+  obtain ⟨fs', h1, h2, h3, h4, -⟩ := sync_mirror hw hs (fun _ _ _ _ _ => rfl)
+  exact ⟨fs', h1, h2, h3, fun p hp => h4 p hp rfl⟩
+
+/-- **Mirror under filters.**  `vis p` says whether the filters let the relative path `p` through (the
+same verdict on both sides: C06); both listings hold exactly the visible entries (`DestWF.listed`,
+`SrcWF.listed`), and what is visible has visible ancestors (an excluded folder is not entered).  Under
+the one extra assumption that a destination folder the plan deletes holds nothing the filters hide
+(`hsafe`: otherwise the deletion fails, `C07_nonempty_folder_fails`), the run ends `ok`, follows no
+link, changes nothing outside the root, reaches the mirror state at **every visible path** and leaves
+**every hidden path exactly as it was**. -/
+theorem C01_mirror_filtered {vis : FPath → Bool} {fs0 : FS} {r : FPath} {ld : List (FPath × Node)}
+    {src : FPath → Option SEntry} {ls : List (FPath × SEntry)}
+    (hw : DestWF vis fs0 r ld) (hs : SrcWF vis src ls)
+    (hsafe : ∀ p c n, (p, Node.folder) ∈ planDel src ld → fs0.get (r ++ (p ++ [c])) = some n → vis (p ++ [c]) = true) :
+    ∃ fs', syncDest fs0 r src ls ld = .ok fs' ∧
+      (∀ q, ¬ r <+: q → fs'.get q = fs0.get q) ∧
+      fs'.get r = some .folder ∧
+      (∀ p, p ≠ [] → vis p = true → MirrorAt fs0 fs' r p (src p)) ∧
+      (∀ p, vis p = false → fs'.get (r ++ p) = fs0.get (r ++ p)) :=
+  sync_mirror hw hs hsafe
 
 /-- **… with the destination's own listing**: the assumptions about the destination listing are met by
 the model's own listing function (`C17_listing_exact_fs`), so for a file-system value with one entry per
@@ -206,12 +225,12 @@ theorem C01_mirror_fs_own_listing (fs0 : FS) (hwf : fs0.Wf) (r : FPath)
     (hroot : fs0.get r = some .folder) (hanc : ∀ k, k < r.length → fs0.get (r.take k) = some .folder)
     (hclosed : ∀ p, p ≠ [] → fs0.get (r ++ p) ≠ none → fs0.get (r ++ p.dropLast) = some .folder)
     (f : Nat) (hfuel : ∀ p, fs0.get (r ++ p) ≠ none → p.length ≤ f)
-    {src : FPath → Option SEntry} {ls : List (FPath × SEntry)} (hs : SrcWF src ls) :
+    {src : FPath → Option SEntry} {ls : List (FPath × SEntry)} (hs : SrcWF (fun _ => true) src ls) :
     ∃ fs', syncDest fs0 r src ls ((listNodes fs0 f r).map fun e => (e.1.drop r.length, e.2)) = .ok fs' ∧
       (∀ q, ¬ r <+: q → fs'.get q = fs0.get q) ∧
       fs'.get r = some .folder ∧
       ∀ p, p ≠ [] → MirrorAt fs0 fs' r p (src p) :=
-  sync_mirror (destWF_of_listNodes fs0 hwf r hroot hanc hclosed f hfuel) hs
+  C01_mirror_fs (destWF_of_listNodes fs0 hwf r hroot hanc hclosed f hfuel) hs
 
 /-- **Mirror, for every source tree and every destination tree** (both as file-system values): a
 source tree below `rs` holding files, folders and links (tree-closed), a destination below `rd` (any
@@ -230,7 +249,7 @@ theorem C01_mirror_two_trees (S D : FS) (rs rd : FPath) (fS fD : Nat)
       (∀ q, ¬ rd <+: q → D'.get q = D.get q) ∧
       D'.get rd = some .folder ∧
       ∀ p, p ≠ [] → MirrorAt D D' rd p (srcOfFS S rs p) :=
-  sync_mirror (destWF_of_listNodes D hD rd hroot hanc hclosed fD hfuel) (srcWF_of_tree S rs fS hS)
+  C01_mirror_fs (destWF_of_listNodes D hD rd hroot hanc hclosed fD hfuel) (srcWF_of_tree S rs fS hS)
 
 /-- how an entry of the file-system model appears in a listing (`entry_details_from_metadata`; the
 link kind `k` is whatever the probe gives: a unix destination does not compare it) -/
